@@ -59,37 +59,41 @@ _QCACHE: dict = {}
 
 
 def free_syms(e) -> frozenset:
-    """Names of the uninterpreted constants / functions occurring in a term (memoised
-    per hash-consed AST id; the term is kept alive by the cache entry)."""
+    """Names of the uninterpreted constants / functions occurring in a term.  Memoised for
+    every visited sub-term (post-order), keyed by AST id with the term kept alive by the
+    cache entry: nested codec terms share most of their sub-terms."""
     k = e.get_id()
     hit = _FV_CACHE.get(k)
     if hit is not None:
         return hit[1]
-    out = set()
-    seen = set()
-    stack = [e]
-    while stack:
-        t = stack.pop()
-        i = t.get_id()
-        if i in seen:
-            continue
-        seen.add(i)
-        sub = _FV_CACHE.get(i)
-        if sub is not None:
-            out |= sub[1]
-            continue
-        if z3.is_app(t):
-            d = t.decl()
-            if d.kind() == z3.Z3_OP_UNINTERPRETED:
-                out.add(d.name())
-            stack.extend(t.children())
-        elif z3.is_quantifier(t):
-            stack.append(t.body())
-    r = frozenset(out)
-    if len(_FV_CACHE) > 400000:
+    if len(_FV_CACHE) > 600000:
         _FV_CACHE.clear()
-    _FV_CACHE[k] = (e, r)
-    return r
+    stack = [(e, None)]
+    while stack:
+        t, kids = stack.pop()
+        i = t.get_id()
+        if i in _FV_CACHE:
+            continue
+        if kids is None:
+            if z3.is_app(t):
+                ch = t.children()
+            elif z3.is_quantifier(t):
+                ch = [t.body()]
+            else:
+                ch = []
+            pending = [c for c in ch if c.get_id() not in _FV_CACHE]
+            if pending:
+                stack.append((t, ch))
+                stack.extend((c, None) for c in pending)
+                continue
+            kids = ch
+        out = set()
+        if z3.is_app(t) and t.decl().kind() == z3.Z3_OP_UNINTERPRETED:
+            out.add(t.decl().name())
+        for c in kids:
+            out |= _FV_CACHE[c.get_id()][1]
+        _FV_CACHE[i] = (t, frozenset(out))
+    return _FV_CACHE[k][1]
 
 
 class Ctx:
@@ -175,7 +179,59 @@ class Ctx:
             s_.add(*rel)
         return s_
 
+    def _groups_of(self, parts):
+        """Partition terms into groups that share symbols (directly or through the path
+        condition's constraint groups)."""
+        key_of = {}
+        buckets: dict = {}
+        for t in parts:
+            syms = free_syms(t)
+            roots = set()
+            for s_ in syms:
+                roots.add(("r", self._find(s_)) if s_ in self._parent else ("s", s_))
+            # merge buckets that share a root
+            hit = [k for k in list(buckets) if buckets[k][0] & roots]
+            if not hit:
+                buckets[len(key_of)] = (set(roots), [t])
+                key_of[len(key_of)] = True
+            else:
+                base = hit[0]
+                buckets[base][0].update(roots)
+                buckets[base][1].append(t)
+                for k in hit[1:]:
+                    buckets[base][0].update(buckets[k][0])
+                    buckets[base][1].extend(buckets[k][1])
+                    del buckets[k]
+        return [v[1] for v in buckets.values()]
+
     def check(self, *assumptions, full: bool = False) -> str:
+        # A large conjunction / disjunction over independent symbols (a 255-character
+        # label comparison) is decided group by group instead of as one monolithic query:
+        # And(...) is satisfiable iff every independent group is, Or(...) iff some group is.
+        if not full and len(assumptions) == 1:
+            a = assumptions[0]
+            neg = z3.is_not(a)
+            inner = a.arg(0) if neg else a
+            kind = "and" if z3.is_and(inner) else ("or" if z3.is_or(inner) else None)
+            if kind and inner.num_args() >= 6:
+                parts = [z3.Not(c) for c in inner.children()] if neg else list(inner.children())
+                if neg:
+                    kind = "or" if kind == "and" else "and"
+                groups = self._groups_of(parts)
+                if len(groups) > 1:
+                    anyunknown = False
+                    for g in groups:
+                        e = (z3.And(*g) if kind == "and" else z3.Or(*g)) if len(g) > 1 else g[0]
+                        r = self.check(e)
+                        if kind == "and" and r == "unsat":
+                            return "unsat"
+                        if kind == "or" and r == "sat":
+                            return "sat"
+                        if r == "unknown":
+                            anyunknown = True
+                    if anyunknown:
+                        return "unknown"
+                    return "sat" if kind == "and" else "unsat"
         t0 = time.perf_counter()
         if full or not assumptions:
             r = self.solver.check(*assumptions)
@@ -226,6 +282,10 @@ class Ctx:
                 sv.add(*assumptions)
             self.stats.queries += 1
             r = str(sv.check())
+            if r == "unknown" and not self.prefs:
+                r2, m2 = self._model_by_groups(assumptions)
+                if r2 == "sat":
+                    return r2, m2
             if r != "sat":
                 return r, None
             if self.prefs:
@@ -250,6 +310,32 @@ class Ctx:
             if _DEBUG_SLOW and dt > _DEBUG_SLOW:
                 import sys as _sys
                 print(f"SLOWMODEL {dt:.3f}s npc={len(self.pc)}", file=_sys.stderr)
+
+    def _model_by_groups(self, assumptions):
+        """Fallback for full models: solve every independent constraint group on its own,
+        pin the values and obtain one z3 model from a final trivial query."""
+        groups = self._groups_of(list(self.pc) + list(assumptions))
+        final = z3.Solver()
+        final.set("timeout", QUERY_TIMEOUT_MS * 4)
+        for g in groups:
+            sv = z3.Solver()
+            sv.set("timeout", QUERY_TIMEOUT_MS * 2)
+            sv.add(*g)
+            self.stats.queries += 1
+            r = str(sv.check())
+            if r != "sat":
+                return r, None
+            m = sv.model()
+            raw = False
+            pins = []
+            for d in m.decls():
+                if d.arity() == 0:
+                    pins.append(d() == m[d])
+                else:
+                    raw = True
+            final.add(*(g if raw else pins))
+        r = str(final.check())
+        return (r, final.model()) if r == "sat" else (r, None)
 
     def add(self, cond) -> None:
         self.pc.append(cond)
@@ -919,6 +1005,17 @@ class PathResult:
         self.taken: List[Any] = []
 
 
+PATH_BUDGET_S = float(os.environ.get("SYMTDF_PATH_BUDGET_S", "150"))
+
+
+class _PathTimeout(Inconclusive):
+    pass
+
+
+def _alarm_handler(signum, frame):
+    raise _PathTimeout(f"path time budget of {PATH_BUDGET_S:.0f}s exhausted")
+
+
 def run_path(fn: Callable[[Any], None], make_inputs: Callable[[Ctx], Any], prefix: List[Any], want_witness: bool = True):
     """Run the harness once along `prefix`.  Returns (PathResult, ctx).
 
@@ -932,6 +1029,13 @@ def run_path(fn: Callable[[Any], None], make_inputs: Callable[[Ctx], Any], prefi
     CUR = c
     inputs = make_inputs(c)
     inputs._res = res
+    import signal as _signal
+    import threading as _threading
+
+    use_alarm = PATH_BUDGET_S > 0 and _threading.current_thread() is _threading.main_thread()
+    if use_alarm:
+        old_handler = _signal.signal(_signal.SIGALRM, _alarm_handler)
+        _signal.setitimer(_signal.ITIMER_REAL, PATH_BUDGET_S)
     try:
         fn(inputs)
         if not want_witness:
@@ -966,6 +1070,9 @@ def run_path(fn: Callable[[Any], None], make_inputs: Callable[[Ctx], Any], prefi
         res.status = "inconclusive"
         res.detail = str(e)
     finally:
+        if use_alarm:
+            _signal.setitimer(_signal.ITIMER_REAL, 0)
+            _signal.signal(_signal.SIGALRM, old_handler)
         try:
             inputs.cleanup()
         except Exception:
